@@ -18,6 +18,7 @@ type Env struct {
 	cells bool          // identifiers may name local variables of fn (current state)
 	fn    *ssa.Function // the function whose names are in scope
 	inOld bool
+	prev  *State // loop-head state for step clauses
 	depth int
 	unfold int  // recursive-function unfoldings on this path
 	noUnfold bool
@@ -140,10 +141,18 @@ func (c *FnCtx) loadQuiet(st *State, p VPtr) Val {
 		return c.load(st, p, 0)
 	}
 	fam, idx, t := c.addrFamily(p)
-	return c.valFromLeaves(t, fam, func(name, sort string) string {
+	v := c.valFromLeaves(t, fam, func(name, sort string) string {
 		m := c.heapGet(st, name, mapSort(len(idx), sort))
 		return selN(m, idx)
 	})
+	// values in memory satisfy their type invariant (ranges, 0 <= len <= cap ...)
+	if inv := c.typeInv(st, v, t); inv != "true" && !strings.Contains(inv, "q.") {
+		if !c.declared["tinv:"+inv] {
+			c.declared["tinv:"+inv] = true
+			c.assert(inv)
+		}
+	}
+	return v
 }
 
 func (e *Env) eval(x Expr) Val {
@@ -201,10 +210,18 @@ func (e *Env) eval(x Expr) Val {
 			vars[v] = VInt{n}
 			decl = append(decl, "("+n+" Int)")
 		}
-		body := e.with(vars).evalBool(x.Body)
+		inner := e.with(vars)
+		body := inner.evalBool(x.Body)
 		q := "exists"
 		if x.Forall {
 			q = "forall"
+		}
+		if len(x.Pats) > 0 {
+			var pts []string
+			for _, pe := range x.Pats {
+				pts = append(pts, flatten(inner.eval(pe))...)
+			}
+			body = fmt.Sprintf("(! %s :pattern (%s))", body, strings.Join(pts, " "))
 		}
 		return VBool{fmt.Sprintf("(%s (%s) %s)", q, strings.Join(decl, " "), body)}
 	case EIndex:
@@ -499,6 +516,19 @@ func (e *Env) call(x ECall) Val {
 		n.st = e.old
 		n.inOld = true
 		return n.eval(x.Args[0])
+	case "prev": // value at the head of the current loop iteration (step clauses)
+		if e.prev == nil {
+			sfail("prev() outside a loop step clause")
+		}
+		n := *e
+		n.st = e.prev
+		return n.eval(x.Args[0])
+	case "at": // element of a slice at an absolute index of its backing array
+		if s, ok := e.eval(x.Args[0]).(VSlice); ok {
+			p := VPtr{Root: rootElem, Ref: s.Base, Idx: e.evalInt(x.Args[1]), T: s.Elem}
+			return c.loadQuiet(e.st, p)
+		}
+		sfail("at: not a slice")
 	case "int", "int8", "int16", "int32", "int64", "uint", "uint8", "uint16", "uint32", "uint64", "byte", "rune":
 		return VInt{e.evalInt(x.Args[0])}
 	case "tab":
@@ -530,6 +560,16 @@ func (e *Env) call(x ECall) Val {
 		if i, ok := e.eval(x.Args[0]).(VIface); ok {
 			return VInt{i.Typ}
 		}
+	case "same": // identical representation (for strings: same backing array, offset and length)
+		a, b := flatten(e.eval(x.Args[0])), flatten(e.eval(x.Args[1]))
+		if len(a) != len(b) {
+			sfail("same: different shapes")
+		}
+		var parts []string
+		for i := range a {
+			parts = append(parts, eq(a[i], b[i]))
+		}
+		return VBool{and(parts...)}
 	case "isnil":
 		v := e.eval(x.Args[0])
 		return VBool{e.valEq(v, VInt{"0"}, x)}
@@ -556,7 +596,7 @@ func (e *Env) call(x ECall) Val {
 		for i, p := range sf.Params {
 			vars[p] = args[i]
 		}
-		n := &Env{c: e.c, st: e.st, old: e.old, vars: vars, cells: false, fn: nil, depth: e.depth + 1, unfold: e.unfold, noUnfold: e.noUnfold}
+		n := &Env{c: e.c, st: e.st, old: e.old, prev: e.prev, vars: vars, cells: false, fn: nil, depth: e.depth + 1, unfold: e.unfold, noUnfold: e.noUnfold}
 		return n.eval(sf.Body)
 	}
 	sfail("unknown spec function %s", x.Fn)
